@@ -50,6 +50,14 @@ CLAIMED = {
    "Structural conditions decided on every run: the NOT/AND/OR combiners' complete decision tables over operand kinds (whole-true, whole-false, mask) x accumulator state are extracted from the SSA and equal DESIGN Appendix A2, with mask methods identified by their bitwise operator; the bit layout (words per mask, word/bit position in set and Test, padding in All/Any) is evaluated exhaustively for every n up to 4W+2 and every word against the definition; Match writes nothing reachable from its Result argument except the private key index (field-level write summaries; Apply is the positive control); every Op constant and every filter node type is handled; Apply's compaction keeps exactly what Test says; fixed lists are AND-composed with the caller's filter; each grammar production builds the documented node; extractor results (views into the Result) are never retained.",
    "Does not decide key extraction values (C05), regexp semantics, or the equality `key's extracted value equals the literal` beyond the structure of the compiled closures. Trusted: go/types, go/ssa, table A2.",
    "decision-table extraction + bounded exhaustive evaluation of integer expressions + field-level effect summaries + exhaustiveness/site rules"),
+ "C08": ("DESIGN.md §4 C08",
+   "Structural conditions decided on every run: interning hashes, compares and stores one and the same trimmed row, stores a fresh copy, appends new nodes to the collision chain and returns an existing node on a match; the parser's exclusion sets are read inside the projection closures through the parser and the full-name extractor is built lazily under a nil guard (parse-order independence); each group joins the residue exactly when its have-flag is unset and the flag is set where the group is projected; the per-measurement projection rewrites only the .unit slot; field count, row buffer and flattened-field cache grow together; sub-name patterns end in '='; Key.Get returns the indexed value or the empty string for trimmed rows.",
+   "Does not decide the 'if and only if' between keys and file configuration/name contents (needs value-level reasoning about byte strings), nor hash collisions' effect beyond the chain structure. Trusted: go/types, go/ssa.",
+   "SSA value-identity and guard rules (site rules over resolved objects)"),
+ "C14": ("DESIGN.md §4 C14",
+   "Structural conditions decided on every run: the command adds a result only after Filter.Apply kept that same result, parses all projection flags with one parser before taking the residue, and hands ToTables the scanned Files' unit metadata; Builder.Add appends exactly one value per measurement, the measurement at the iteration's index, to the cell found or created under the iteration's table key and the result's (row, column) key (all paths of one iteration enumerated); the baseline is element 0 of the sorted columns, linked per row, and Compare/FormatDelta receive (baseline, cell) in that order in both renderers; the assumption is chosen from the table key's unit; the column summary's per-row decision table and ratio formula; key identity of interning (shared with C08); unit metadata survives from file to file.",
+   "Does not decide that keys partition results correctly beyond interning identity (C08), nor the statistics themselves (C13, go-moremath). Trusted: go/types, go/ssa.",
+   "path enumeration by abstract interpretation + dominance/guard rules + rational identity for the ratio"),
 }
 
 NOT_YET = "check not built yet in this round (planned in DESIGN.md); not claimed until its rules run clean on the unchanged tree"
